@@ -13,7 +13,8 @@ RULE = ("Cases: lists of 1-7 recordings with individual lengths (16-400 samples)
         "values in an arbitrary arrangement, a drawn permutation and sub-list, any processing method, each of the three "
         "dissimilar-time-step policies, explicit FFT length, centre frequencies below every Nyquist or (sub-case) above the "
         "Nyquist of some records. Non-trivial = (>= 3 records with >= 2 distinct time steps) or a centre frequency above "
-        "some record's Nyquist; distinct by SHA-1 of the case.")
+        "some record's Nyquist; distinct by SHA-1 of the case."
+        ' Scale pass: 5-100 windows with user FFT lengths 2^17-2^20 (raw spectra of a time-step group up to 2^27 bytes in the quick tier, 2^28.7 in the thorough tier).')
 ASSUMPTIONS = [
     "FFT length fixed explicitly (fft_settings={'n': N}, N >= nextpow2 of the longest record), fresh settings object per call",
     "ties of the majority policy: any time step of maximal multiplicity is accepted",
